@@ -14,8 +14,8 @@ TECHNIQUE = ("property-based testing (Hypothesis): annotated assemblies with gen
              "assembly stripped of citations, plus reference-resolution oracle; "
              "three consecutive calls on the same objects")
 RULE = ("C08's annotated assemblies where each input has a reference list of 0-4 "
-        "references drawn from a pool of 6 (so references are shared between inputs, "
-        "distinct within one) and features citing 0-3 of them as '[n]' (always in "
+        "references drawn from a pool of 8 (so references are shared between inputs, "
+        "distinct within one; four of them differ from each other in a single field) and features citing 0-3 of them as '[n]' (always in "
         "range), cited features inside and outside the retained arcs. Oracle: (1) "
         "same product sequence as the run with all citations and reference lists "
         "stripped; (2) every citation of every inherited product feature is a string "
@@ -28,7 +28,7 @@ RULE = ("C08's annotated assemblies where each input has a reference list of 0-4
         "retained arc; distinct = distinct spec.")
 ASSUMPTIONS = [
     "citations are well-formed and in range; references are distinct within one record",
-    "references are compared field-wise (title, authors, journal, pubmed id)",
+    "references are compared field-wise (title, authors, journal, pubmed id, medline id, comment); the pool contains references differing in one field only",
 ]
 LEVEL_TEXT = ("Exploration: sampled assemblies with citations (a code path the suite "
               "never runs), each checked against a reference-resolution oracle and "
@@ -68,6 +68,7 @@ def check(spec, ctx):
     vec = V(recs[0])
     mods = [M(r) for r in recs[1:]]
     args = [mods[i] for i in spec["order"]]
+    sut(annot.touch, [vec] + mods, spec)
 
     def go():
         with warnings.catch_warnings():
@@ -110,8 +111,8 @@ def check(spec, ctx):
                     raise Violation("CITATION-RANGE", "call %d: feature %r cites [%d], the product "
                                     "has %d references" % (call, label, i, len(reflist)))
                 got = reflist[i - 1]
-                if rec.ref_fields(got)[1:5] != ("%s" % w.get("title", ""), w.get("authors", ""),
-                                                w.get("journal", ""), w.get("pubmed", "")):
+                gf = rec.ref_fields(got)
+                if (gf[1], gf[2], gf[3], gf[4], gf[5], gf[6]) != annot.ref_tuple(w):
                     raise Violation("CITATION-TARGET", "call %d: feature %r cites [%d] = %r, its source "
                                     "cited %r" % (call, label, i, getattr(got, "title", got), w["title"]))
                 cited.append(rec.ref_fields(got))
